@@ -129,10 +129,10 @@ func newRefRouter(set RouteSet) *refRouter {
 }
 
 type matchRes struct {
-	route     *refRoute
-	params    []kv
-	ambiguous bool // a don't-care region was touched on the way to this verdict
-	infix     bool // an infix catch-all (followed by further pattern text) took part
+	route      *refRoute
+	params     []kv
+	ambiguous  bool // a don't-care region was touched on the way to this verdict
+	infix      bool // an infix catch-all (followed by further pattern text) took part
 	backtracks int
 }
 
@@ -258,12 +258,12 @@ func toggleSlash(p string) string {
 }
 
 type lookupRes struct {
-	route     *refRoute
-	params    []kv
-	tsr       bool
-	ambiguous bool
-	infix     bool
-	viaHost   bool
+	route      *refRoute
+	params     []kv
+	tsr        bool
+	ambiguous  bool
+	infix      bool
+	viaHost    bool
 	backtracks int
 }
 
